@@ -434,6 +434,7 @@ def _run_hex(case):
     with warnings.catch_warnings():
         warnings.simplefilter("ignore")
         g = cls(w, h, torus)
+        _add_layers(g, case)
     where = {}
     for aid, x, y in case["agents"]:
         a = _agent(model, aid)
@@ -548,6 +549,22 @@ def _run_net(case):
 
 _FALSY = {}
 _SUBCLS = {}
+_LAYER_NAMES = ["torus", "width", "height", "moore", "radius", "pos", "include_center", "num_cells", "elevation", "_grid",
+                "_neighborhood_cache", "empties"]
+
+
+def _add_layers(g, case):
+    """the legacy grids carry property layers (part of the same classes): every fourth history queries a grid that has
+    two layers attached, named like things the neighbourhood code reads (a layer is data; it must not shadow them);
+    a third layer is attached and removed again after the first half of the queries (see run_impl)"""
+    k = (3 * case["w"] + case["h"] + 2 * len(case["ops"])) % 4
+    if k != 1:
+        return
+    from mesa.space import PropertyLayer
+
+    names = [_LAYER_NAMES[(case["w"] + i * (case["h"] + 1)) % len(_LAYER_NAMES)] for i in range(2)]
+    for nm in dict.fromkeys(names):
+        g.add_property_layer(PropertyLayer(nm, case["w"], case["h"], 1 if nm != "torus" else int(not case["torus"]), dtype=int))
 
 
 def _user_subclass(base, case):
@@ -627,6 +644,7 @@ def run_impl(case):
     with warnings.catch_warnings():
         warnings.simplefilter("ignore")
         g = cls(case["w"], case["h"], case["torus"])
+        _add_layers(g, case)
     ids = {}
     where = {}
     for aid, x, y in case["agents"]:
